@@ -1,10 +1,11 @@
 pub mod common;
+pub mod c01;
 pub mod c06;
 
 use crate::runner::Check;
 
 pub fn all() -> Vec<Box<dyn Check>> {
-    vec![Box::new(c06::C06)]
+    vec![Box::new(c01::C01), Box::new(c06::C06)]
 }
 
 pub fn by_id(id: &str) -> Option<Box<dyn Check>> {
